@@ -39,6 +39,15 @@ fn args() -> Vec<Value> {
         Value::Int(1), Value::String("1".into()), Value::String("i1".into()), Value::Vec(vec![Value::Int(1)]), Value::Float(1.0), Value::Decimal(Decimal::new(1, 0)), Value::Map(m),
         Value::None, Value::Vec(vec![Value::Vec(vec![Value::Int(1)])]), Value::String("ca".into()), Value::Int(2), Value::Bool(true), Value::String("Int(1)".into()), Value::Vec(vec![]),
         Value::String("".into()), Value::Float(-0.0), Value::Float(0.0), Value::Int(-1), Value::String("ca-Int(1)".into()),
+        Value::DateTime(chrono::DateTime::from_timestamp(1, 0).unwrap()), Value::DateTime(chrono::DateTime::from_timestamp(1, 1).unwrap()), Value::Duration(chrono::TimeDelta::seconds(1)),
+        Value::Duration(chrono::TimeDelta::milliseconds(1000)), Value::Duration(chrono::TimeDelta::nanoseconds(1)), Value::Float(1e16), Value::Float(1e16 + 2.0), Value::String("1970-01-01T00:00:01Z".into()),
+        Value::String("ca".into()), Value::String("-".into()), Value::String("a-Int(1)".into()), Value::Vec(vec![Value::String("1".into())]), Value::Vec(vec![Value::Int(1), Value::Int(1)]),
+        Value::Map([("a".to_string(), Value::Int(1)), ("b".to_string(), Value::Int(2))].into_iter().collect()),
+        Value::Map([("a: i1, b".to_string(), Value::Int(2))].into_iter().collect()),
+        Value::Map([("a".to_string(), Value::String("1, b: 2".into()))].into_iter().collect()),
+        Value::Vec(vec![Value::String("a, b".into())]), Value::Vec(vec![Value::String("a".into()), Value::String("b".into())]),
+        Value::String("\"1\"".into()), Value::String("i1".into()), Value::Vec(vec![Value::String("i1".into())]),
+        Value::Map(BTreeMap::new()), Value::String("{}".into()), Value::String("[]".into()), Value::String("none".into()), Value::String("None".into()),
     ]
 }
 
@@ -50,8 +59,13 @@ struct Call {
     inner: Option<&'static str>,
 }
 
+fn arg_value(c: &Call, a: &[Value]) -> Value {
+    // indices beyond the look-alike pool denote "the integer <index>" (used by the long histories)
+    a.get(c.arg).cloned().unwrap_or(Value::Int(c.arg as i128))
+}
+
 fn call_expr(c: &Call, a: &[Value]) -> Expr {
-    let arg = Expr::value(a[c.arg].clone());
+    let arg = Expr::value(arg_value(c, a));
     match c.inner {
         Some(i) => Expr::func(c.func, Expr::func(i, arg)),
         None => Expr::func(c.func, arg),
@@ -100,7 +114,7 @@ fn judge(ctx: &mut Ctx, calls: &[Call], cuts: &[usize], plan: FaultPlan, family:
             }
         };
         let case = |extra: serde_json::Value| {
-            json!({"calls": calls.iter().map(|c| format!("{}{}({:?})", c.func, c.inner.map(|i| format!("∘{i}")).unwrap_or_default(), a[c.arg])).collect::<Vec<_>>(), "rule_boundaries": cuts,
+            json!({"calls": calls.iter().map(|c| format!("{}{}({:?})", c.func, c.inner.map(|i| format!("∘{i}")).unwrap_or_default(), arg_value(c, &a))).collect::<Vec<_>>(), "rule_boundaries": cuts,
                    "faults": format!("{:?}", fx.plan.faults), "evaluation": round, "observed_invocations": show_log(&res.log), "expected_invocations": show_want(&pred.invocations), "detail": extra})
         };
         if let Some(d) = diff_log(&res.log, &pred.invocations) {
@@ -140,7 +154,7 @@ fn judge(ctx: &mut Ctx, calls: &[Call], cuts: &[usize], plan: FaultPlan, family:
         }
         ctx.hit(&format!("evaluation-round:{round}"));
     }
-    ctx.sample(family, || json!({"calls": calls.iter().map(|c| format!("{}({:?})", c.func, a[c.arg])).collect::<Vec<_>>(), "invocations_expected": show_want(&pred.invocations), "cache_hits": pred.cache_hits}));
+    ctx.sample(family, || json!({"calls": calls.iter().map(|c| format!("{}({:?})", c.func, arg_value(c, &a))).collect::<Vec<_>>(), "invocations_expected": show_want(&pred.invocations), "cache_hits": pred.cache_hits}));
 }
 
 fn plans(options: &[(String, Value, usize)], max_faults: usize) -> Vec<FaultPlan> {
@@ -225,14 +239,41 @@ fn random(ctx: &mut Ctx, n: usize) {
         let mut plan = FaultPlan::default();
         for _ in 0..rng.below(3) {
             let c = &calls[rng.below(calls.len())];
-            plan.faults.push((c.func.to_string(), a[c.arg].clone(), rng.below(3)));
+            plan.faults.push((c.func.to_string(), arg_value(c, &a).clone(), rng.below(3)));
         }
         judge(ctx, &calls, &cuts, plan, "random-histories");
     }
     ctx.rng = rng;
 }
 
+/// long histories: many distinct arguments (a cache that evicts or mis-indexes beyond some size), repeated late
+fn long_histories(ctx: &mut Ctx, n: usize) {
+    let mut rng: Rng = ctx.rng.clone();
+    for _ in 0..n {
+        let distinct = 20 + rng.below(200);
+        let mut calls: Vec<Call> = vec![];
+        // the argument table for this history: integers 1000.. are appended to the shared pool on the fly through `arg` indices
+        // (indices beyond the pool are mapped to Int(index) in call_expr_long)
+        for i in 0..distinct {
+            calls.push(Call { func: if i % 7 == 3 { "cb" } else { "ca" }, arg: 1000 + i, inner: None });
+        }
+        // second pass in a different order: every one of these must be a cache hit
+        let mut order: Vec<usize> = (0..distinct).collect();
+        rng.shuffle(&mut order);
+        for i in order.into_iter().take(40) {
+            calls.push(Call { func: if i % 7 == 3 { "cb" } else { "ca" }, arg: 1000 + i, inner: None });
+        }
+        let nrules = 1 + rng.below(4);
+        let mut cuts: Vec<usize> = (0..nrules - 1).map(|_| 1 + rng.below(calls.len() - 1)).collect();
+        cuts.sort();
+        cuts.dedup();
+        judge(ctx, &calls, &cuts, FaultPlan::default(), "long-histories");
+    }
+    ctx.rng = rng;
+}
+
 fn run(ctx: &mut Ctx) {
+    long_histories(ctx, ctx.tier.of(30, 300));
     exhaustive(ctx, ctx.tier.of(3, 4));
     random(ctx, ctx.tier.of(100_000, 1_000_000));
 }
